@@ -22,6 +22,7 @@ var c18Exts = []string{".tw", ".tw.html", ".html", ".t"}
 // directory spellings: (what is configured, where the files really are)
 var c18Dirs = []struct{ spelled, real string }{
 	{"t", "t"}, {"t/", "t"}, {"t//", "t"}, {"./t", "t"}, {"x/../t", "t"}, {"t/in", "t/in"}, {"t/in/", "t/in"}, {"./t/./in", "t/in"},
+	{"t/in/..", "t"}, {"t/in/../", "t"}, {"t/in/../in", "t/in"}, {"./x/.././t/", "t"},
 }
 
 var c18Bases = []string{"a", "b", "ab", "a.b"}
@@ -75,6 +76,7 @@ func init() {
 					os.RemoveAll("t")
 					os.RemoveAll("x")
 					os.MkdirAll("x", 0o755)
+					os.MkdirAll("t/in", 0o755)
 					files := map[string]string{}
 					want := map[string]string{}
 					layouts := map[string]bool{}
